@@ -117,6 +117,11 @@ def build_electric_component(d):
         kw = {}
         if cg.get("gt_curve"):
             kw = dict(gas_turbine_power_curve=curve(cg["gt_curve"]), steam_turbine_power_curve=curve(cg["st_curve"]))
+        if cg.get("emissions"):
+            from feems.types_for_feems import EmissionCurve, EmissionCurvePoint, EmissionType
+            kw["emissions_curves"] = [EmissionCurve(points_per_kwh=[EmissionCurvePoint(load_ratio=F(p[0]), emission_g_per_kwh=F(p[1]))
+                                                                    for p in pts], emission=EmissionType[sp])
+                                      for sp, pts in cg["emissions"].items()]
         cogas = COGAS(name=name + "_cogas", rated_power=F(cg.get("rated", d["rated"])),
                       eff_curve=curve(cg.get("eff", [[0.25, 0.35], [0.5, 0.45], [1.0, 0.52]])),
                       rated_speed=F(cg.get("speed", 3000)), fuel_type=fuel_enum(cg.get("fuel", "NATURAL_GAS")),
@@ -154,7 +159,18 @@ def build_electric_component(d):
         comps = []
         for k, st in enumerate(stages):
             tc = [TypeComponent.TRANSFORMER, TypeComponent.INVERTER, TypeComponent.ELECTRIC_MOTOR][min(k, 2)]
-            if k == len(stages) - 1:
+            if st.get("kind"):           # explicit stage kinds (C13)
+                pt = TypePower.PTI_PTO if cls == "ptipto" else TypePower.POWER_CONSUMER
+                if st["kind"] == "machine":
+                    comps.append(ElectricMachine(type_=TypeComponent[st.get("type", "SYNCHRONOUS_MACHINE")], name=f"{name}_s{k}",
+                                                 rated_power=F(st["rated"]), rated_speed=F(st.get("speed", 1000)),
+                                                 power_type=pt, switchboard_id=swb, eff_curve=curve(st["eff"])))
+                else:
+                    default = {"transformer": "TRANSFORMER", "converter": "INVERTER", "breaker": "CIRCUIT_BREAKER"}[st["kind"]]
+                    comps.append(ElectricComponent(type_=TypeComponent[st.get("type", default)], name=f"{name}_s{k}",
+                                                   rated_power=F(st["rated"]), eff_curve=curve(st["eff"]),
+                                                   power_type=TypePower.POWER_TRANSMISSION, switchboard_id=swb))
+            elif k == len(stages) - 1:
                 comps.append(ElectricMachine(type_=TypeComponent.SYNCHRONOUS_MACHINE, name=f"{name}_s{k}",
                                              rated_power=F(st["rated"]), rated_speed=1000.0,
                                              power_type=TypePower.PTI_PTO if cls == "ptipto" else TypePower.POWER_CONSUMER,
@@ -164,8 +180,9 @@ def build_electric_component(d):
                                                eff_curve=curve(st["eff"]), power_type=TypePower.POWER_TRANSMISSION,
                                                switchboard_id=swb))
         if cls == "ptipto":
-            return PTIPTO(name, comps, swb, rated, 1000.0, shaft_line_id=int(d.get("line", 1)))
-        return SerialSystemElectric(TypeComponent.PROPULSION_DRIVE, name, TypePower.POWER_CONSUMER, comps, swb, rated, 1000.0)
+            return PTIPTO(name, comps, swb, rated, F(d.get("speed", 1000)), shaft_line_id=int(d.get("line", 1)))
+        return SerialSystemElectric(TypeComponent.PROPULSION_DRIVE, name, TypePower.POWER_CONSUMER, comps, swb, rated,
+                                    F(d.get("speed", 1000)))
     if cls == "bad_source":      # declared a power source but not one of the classes allowed for that role
         return ElectricComponent(type_=TypeComponent.GENERATOR, name=name, rated_power=rated, eff_curve=eff,
                                  power_type=TypePower.POWER_SOURCE, switchboard_id=swb)
